@@ -29,6 +29,17 @@ def put(d,name,body):
     a='<!-- %s BEGIN -->'%name; b='<!-- %s END -->'%name
     i=d.index(a)+len(a); j=d.index(b)
     return d[:i]+'\n'+body+d[j:]
+# measured numbers of the last sweep, from the evidence files
+meas='| id | tier | cases evaluated | non-trivial | violations | exhaustive within bound | wall (s) | further counters |\n|---|---|---|---|---|---|---|---|\n'
+for f in sorted(glob.glob('/verif/evidence/C*.json')):
+    e=json.load(open(f)); c=e['coverage']
+    extra=[]
+    for k,v in c.items():
+        if k in ('evaluations','distinct_nontrivial','distinct_outcomes','exhaustive','rule','samples','known_findings_hit','not_exhaustive_reasons'): continue
+        if isinstance(v,(int,float)) and not isinstance(v,bool): extra.append(f'{k}={v}')
+    meas+=f"| {e['property_id']} | {e.get('tier','')} | {c.get('evaluations')} | {c.get('distinct_nontrivial')} | {len(e.get('violations',[]))} | {c.get('exhaustive')} | {e.get('wall_s','')} | {', '.join(extra[:8])} |\n"
+if '<!-- MEASURED BEGIN -->' in d:
+    d=put(d,'MEASURED',meas)
 d=put(d,'FIXTABLE',fixtab)
 d=put(d,'SEEDTABLE',seedtab)
 d=put(d,'COUNTS',f'{n} `fix:` commits; {len(rows)} seeded changes, {len(rows)-missed} reported by the check as first built, {missed} missed at first.\n')
